@@ -27,13 +27,15 @@ QuantileMetrics == {"quantile", "quantilecoverage", "quantilescore", "spread", "
 \* option variants, applied where they are meaningful
 Variants(m) ==
   {"plain"} \cup (IF m \in WithAgg THEN {"agg-median", "agg-0.9", "agg-count"} ELSE {})
-            \cup (IF m \in CatNames \cup ProbNames \cup {"within", "freq", "cond", "performance", "droc", "roc", "reliability"} THEN {"b-within", "b-below=", "r-given", "r-single"} ELSE {})
+            \cup (IF m \in CatNames \cup ProbNames \cup {"within", "freq", "cond", "performance", "droc", "roc", "reliability"} THEN {"b-within", "b-below=", "b-=within", "b-=within=", "b-above=", "r-given", "r-single"} ELSE {})
             \cup (IF m \in QuantileMetrics THEN {"q-given", "q-single"} ELSE {})
             \cup (IF m \in DetNames THEN {"acc", "hist", "sort", "T-6"} ELSE {})
             \cup (IF m \in DiagramNames THEN {"q-edges", "r-q-edges"} ELSE {})      \* -q also gives the bin edges / levels of several diagrams
 VariantTokens(v) ==
   CASE v = "plain" -> <<>> [] v = "agg-median" -> <<"-agg", "median">> [] v = "agg-0.9" -> <<"-agg", "0.9">> [] v = "agg-count" -> <<"-agg", "count">>
     [] v = "b-within" -> <<"-b", "within", "-r", "1,2,3">> [] v = "b-below=" -> <<"-b", "below=", "-r", "1,2">>
+    [] v = "b-=within" -> <<"-b", "=within", "-r", "1,2,3">> [] v = "b-=within=" -> <<"-b", "=within=", "-r", "1,2,3">>
+    [] v = "b-above=" -> <<"-b", "above=", "-r", "1,2">>
     [] v = "r-given" -> <<"-r", "1,2,3">> [] v = "r-single" -> <<"-r", "2">>
     [] v = "q-given" -> <<"-q", "0.1,0.9">> [] v = "q-single" -> <<"-q", "0.5">>
     [] v = "q-edges" -> <<"-q", "0,0.25,0.5,0.75,1">> [] v = "r-q-edges" -> <<"-r", "2", "-q", "0,0.25,0.5,0.75,1">>
